@@ -252,6 +252,11 @@ def known_label(o):
     return None
 
 
+def strip_suffix(v):
+    """condition variable without its iteration (`#n`) / collision (`~n`) suffixes"""
+    return re.sub(r'(?:[#~]\d+)+$', '', v)
+
+
 class Path:
     __slots__ = ('blocks', 'conds', 'events', 'outcome', 'ret_site', 'kind', 'event_args', 'field_stores')
 
@@ -279,6 +284,7 @@ class Path:
 
 
 _PATH_FACTS = [None]
+_LOGLEVEL = re.compile(r'^cmp\((?:const\()?(?:log::)?Level::\w+(?:\(\))?\)?,(?:call:log::max_level(?:\(\))?|const\(log::STATIC_MAX_LEVEL\))\)$')
 _PANIC = re.compile(r'^(core|std)::(panicking::|rt::begin_panic|rt::panic_fmt|option::expect_failed|result::unwrap_failed|option::unwrap_failed)')
 
 
@@ -478,7 +484,12 @@ def enumerate_paths(body, facts=None, start=0, max_paths=50000, stop_calls=None,
             for tb, labs in sorted(edges.items()):
                 if vp in cm and not (cm[vp] & labs):
                     continue  # infeasible: contradicts an earlier test of the same value
-                rec(tb, env, conds + [(vp, frozenset(labs), bb)], events, blocks, last0)
+                if _LOGLEVEL.match(strip_suffix(vp)):
+                    # the level test inside `debug!`/`info!`/..: both sides are followed, the test is not a condition of
+                    # the path table (what happens under it is still seen as events of the path)
+                    rec(tb, env, conds, events, blocks, last0)
+                else:
+                    rec(tb, env, conds + [(vp, frozenset(labs), bb)], events, blocks, last0)
             return
         if k == 'unreachable':
             return
